@@ -33,12 +33,63 @@ pub static mut SIDE: u32 = 0;
 pub static mut SIDE_AT_CALL: u32 = 0;
 pub static mut NEED_SIDE_EQ: bool = false;
 
+// ---- fake! arm harnesses (C06 / C08) -----------------------------------------------------------
+/// the `times:` operand of the generated instantiations (symbolic N)
+pub static mut TIMES_N: usize = 0;
+pub fn times_n() -> usize {
+    unsafe { TIMES_N }
+}
+/// the `assign:` block of the generated instantiations bumps this observable side-effect counter
+pub fn bump_side() {
+    unsafe {
+        SIDE = SIDE.wrapping_add(1);
+    }
+}
+/// the `&mut i32` argument handed to the fake lives here so that the hook can see it
+pub static mut ARG_CELL: i32 = 0;
+pub static mut ARG_AT_CALL: i32 = 0;
+/// true when the arguments of the call in flight fail the `when` condition
+pub static mut REJECT_MUST_BE_ARGS: bool = false;
+pub static mut PROBE: Option<&'static std::sync::atomic::AtomicUsize> = None;
+pub static mut PROBE_AT_CALL: usize = 0;
+pub static mut N_RMW: usize = 0;
+pub static mut N_LOAD: usize = 0;
+pub static mut N_STORE: usize = 0;
+
+pub fn counting_fetch_add(this: &std::sync::atomic::AtomicUsize, val: usize, _o: std::sync::atomic::Ordering) -> usize {
+    unsafe {
+        N_RMW += 1;
+        let p = this.as_ptr();
+        let old = *p;
+        *p = old.wrapping_add(val);
+        old
+    }
+}
+pub fn counting_load(this: &std::sync::atomic::AtomicUsize, _o: std::sync::atomic::Ordering) -> usize {
+    unsafe {
+        N_LOAD += 1;
+        *this.as_ptr()
+    }
+}
+pub fn counting_store(this: &std::sync::atomic::AtomicUsize, val: usize, _o: std::sync::atomic::Ordering) {
+    unsafe {
+        N_STORE += 1;
+        *this.as_ptr() = val;
+    }
+}
+
 #[cfg(kani)]
 pub static mut SNAPSHOT: [u8; libc::verif::ARENA] = [0; libc::verif::ARENA];
 
 /// Called by the OS model at every event (1 mprotect, 2 munmap, 3 flush, 4 mmap), *before* the event
 /// takes effect. Empty; a harness binds a monitor onto `event_hook` with #[kani::stub].
 pub fn event_hook(_kind: u8) {}
+
+/// ghost "a panic is in flight" flag, bound onto std::thread::panicking with #[kani::stub]
+pub static mut PANICKING: bool = false;
+pub fn ghost_panicking() -> bool {
+    unsafe { PANICKING }
+}
 
 pub const fn bit(k: u32) -> u32 {
     1u32 << k
@@ -75,7 +126,16 @@ pub fn on_panic(kind: u32, _line: u32) {
             assert!(libc::verif::live_count() <= NEED_LIVE, "OBL:panic.no-pending-mapping: no rejected placement may be left mapped at the panic");
         }
         if NEED_SIDE_EQ {
-            assert!(SIDE == SIDE_AT_CALL, "OBL:panic.no-side-effect: a rejected call must have no side effect");
+            assert!(SIDE == SIDE_AT_CALL && ARG_CELL == ARG_AT_CALL, "OBL:panic.no-side-effect: a rejected or over-budget call must have no side effect");
+            if kind == K_ARGS {
+                assert!(REJECT_MUST_BE_ARGS, "OBL:panic.args-only-when-cond-fails: the unexpected-arguments panic is raised only when `when` is false");
+                if let Some(ctr) = PROBE {
+                    assert!(ctr.load(std::sync::atomic::Ordering::SeqCst) == PROBE_AT_CALL, "OBL:panic.rejected-not-counted: a call rejected by `when` is not counted");
+                }
+            }
+            if kind == K_OVER {
+                assert!(!REJECT_MUST_BE_ARGS && PROBE_AT_CALL >= TIMES_N, "OBL:panic.over-only-when-budget-spent: the over-call panic is raised only for a matching call after N matching calls");
+            }
         }
     }
     // the panic! that follows ends this execution; nothing after it belongs to the obligation
@@ -130,5 +190,152 @@ pub mod oracle {
             return Some(imm as i64 as u64);
         }
         None
+    }
+
+    // ---- AArch64 (A64) ------------------------------------------------------------------------
+    // Field layouts restated from the Arm ARM (C6.2): MOVZ/MOVK (wide immediate), BR, RET, B, ADRP,
+    // ADD (immediate), NOP. Not derived from the emitters under verification.
+    #[derive(Clone, Copy, PartialEq, Eq)]
+    pub enum A64 {
+        Movz { sf: bool, hw: u8, imm16: u16, rd: u8 },
+        Movk { sf: bool, hw: u8, imm16: u16, rd: u8 },
+        Br { rn: u8 },
+        Ret { rn: u8 },
+        B { imm26: u32 },
+        Adrp { rd: u8, immhi_lo: u32 },
+        AddImm { sh: bool, imm12: u16, rn: u8, rd: u8 },
+        Nop,
+    }
+
+    pub fn a64_decode(w: u32) -> Option<A64> {
+        if w == 0xD503_201F {
+            return Some(A64::Nop);
+        }
+        // move wide immediate: sf opc(2) 100101 hw(2) imm16 Rd
+        if (w >> 23) & 0x3F == 0b100101 {
+            let sf = (w >> 31) & 1 == 1;
+            let opc = (w >> 29) & 3;
+            let hw = ((w >> 21) & 3) as u8;
+            let imm16 = ((w >> 5) & 0xFFFF) as u16;
+            let rd = (w & 31) as u8;
+            if !sf && hw >= 2 {
+                return None; // unallocated
+            }
+            if opc == 0b10 {
+                return Some(A64::Movz { sf, hw, imm16, rd });
+            }
+            if opc == 0b11 {
+                return Some(A64::Movk { sf, hw, imm16, rd });
+            }
+            return None;
+        }
+        // BR: 1101011 0 0 00 11111 0000 0 0 Rn 00000 ; RET: opc = 0010
+        if w & 0xFFFF_FC1F == 0xD61F_0000 {
+            return Some(A64::Br { rn: ((w >> 5) & 31) as u8 });
+        }
+        if w & 0xFFFF_FC1F == 0xD65F_0000 {
+            return Some(A64::Ret { rn: ((w >> 5) & 31) as u8 });
+        }
+        // B: 0 00101 imm26
+        if w >> 26 == 0b000101 {
+            return Some(A64::B { imm26: w & 0x03FF_FFFF });
+        }
+        // ADRP: 1 immlo(2) 10000 immhi(19) Rd
+        if (w >> 31) == 1 && (w >> 24) & 0x1F == 0b10000 {
+            let immlo = (w >> 29) & 3;
+            let immhi = (w >> 5) & 0x7FFFF;
+            return Some(A64::Adrp { rd: (w & 31) as u8, immhi_lo: (immhi << 2) | immlo });
+        }
+        // ADD (immediate), 64-bit, no flags: 1 0 0 100010 sh imm12 Rn Rd
+        if w >> 23 == 0b1_0_0_100010 {
+            return Some(A64::AddImm { sh: (w >> 22) & 1 == 1, imm12: ((w >> 10) & 0xFFF) as u16, rn: ((w >> 5) & 31) as u8, rd: (w & 31) as u8 });
+        }
+        None
+    }
+
+    #[derive(Clone, Copy, PartialEq, Eq)]
+    pub enum A64End {
+        /// control left the sequence to this address
+        Jump(u64),
+        /// returned to the caller (address in x30)
+        Return,
+        /// fell off the end / undecodable
+        Stuck,
+    }
+
+    pub struct A64Run {
+        pub end: A64End,
+        /// bit i set = general register i was written
+        pub written: u32,
+        pub x0: u64,
+    }
+
+    fn sext(v: u64, bits: u32) -> u64 {
+        let sh = 64 - bits;
+        (((v << sh) as i64) >> sh) as u64
+    }
+
+    /// Execute the straight-line sequence `words` placed at `pc`, from register file `regs`.
+    pub fn a64_run(words: &[u32], n: usize, pc: u64, regs0: &[u64; 32]) -> A64Run {
+        let mut regs = *regs0;
+        let mut written: u32 = 0;
+        let mut i = 0;
+        while i < n {
+            let here = pc.wrapping_add(4 * i as u64);
+            match a64_decode(words[i]) {
+                None => return A64Run { end: A64End::Stuck, written, x0: regs[0] },
+                Some(A64::Nop) => {}
+                Some(A64::Movz { sf, hw, imm16, rd }) => {
+                    if rd == 31 {
+                        return A64Run { end: A64End::Stuck, written, x0: regs[0] };
+                    }
+                    let v = (imm16 as u64) << (16 * hw as u32);
+                    regs[rd as usize] = if sf { v } else { v & 0xFFFF_FFFF };
+                    written |= 1 << rd;
+                }
+                Some(A64::Movk { sf, hw, imm16, rd }) => {
+                    if rd == 31 {
+                        return A64Run { end: A64End::Stuck, written, x0: regs[0] };
+                    }
+                    let sh = 16 * hw as u32;
+                    let v = (regs[rd as usize] & !(0xFFFFu64 << sh)) | ((imm16 as u64) << sh);
+                    regs[rd as usize] = if sf { v } else { v & 0xFFFF_FFFF };
+                    written |= 1 << rd;
+                }
+                Some(A64::Br { rn }) => {
+                    let t = if rn == 31 { 0 } else { regs[rn as usize] };
+                    return A64Run { end: A64End::Jump(t), written, x0: regs[0] };
+                }
+                Some(A64::Ret { rn }) => {
+                    if rn == 30 {
+                        return A64Run { end: A64End::Return, written, x0: regs[0] };
+                    }
+                    let t = if rn == 31 { 0 } else { regs[rn as usize] };
+                    return A64Run { end: A64End::Jump(t), written, x0: regs[0] };
+                }
+                Some(A64::B { imm26 }) => {
+                    let off = sext((imm26 as u64) << 2, 28);
+                    return A64Run { end: A64End::Jump(here.wrapping_add(off)), written, x0: regs[0] };
+                }
+                Some(A64::Adrp { rd, immhi_lo }) => {
+                    if rd == 31 {
+                        return A64Run { end: A64End::Stuck, written, x0: regs[0] };
+                    }
+                    let off = sext((immhi_lo as u64) << 12, 33);
+                    regs[rd as usize] = (here & !0xFFF).wrapping_add(off);
+                    written |= 1 << rd;
+                }
+                Some(A64::AddImm { sh, imm12, rn, rd }) => {
+                    if rd == 31 || rn == 31 {
+                        return A64Run { end: A64End::Stuck, written, x0: regs[0] }; // SP forms are outside the subset
+                    }
+                    let imm = if sh { (imm12 as u64) << 12 } else { imm12 as u64 };
+                    regs[rd as usize] = regs[rn as usize].wrapping_add(imm);
+                    written |= 1 << rd;
+                }
+            }
+            i += 1;
+        }
+        A64Run { end: A64End::Stuck, written, x0: regs[0] }
     }
 }
